@@ -40,6 +40,9 @@ int read_bin(const char *filename, Memory *memory, uint32_t start_address)
 
   fclose(in);
 
+  // An empty file has no image.
+  if (address == start_address) { return -1; }
+
   memory->low_address = start_address;
   memory->high_address = address - 1;
 
